@@ -161,11 +161,11 @@ func Explore(prog *Program, harness string, opts ExploreOpts) (*HarnessResult, e
 			}
 			switch pr.End {
 			case "engine", "budget":
-				if len(res.EngineErrors) < 20 {
+				if len(res.EngineErrors) < 20 && !contains(res.EngineErrors, pr.Msg) {
 					res.EngineErrors = append(res.EngineErrors, pr.Msg)
 				}
 			case "unwind":
-				if len(res.Unwinds) < 20 {
+				if len(res.Unwinds) < 20 && !contains(res.Unwinds, pr.Msg) {
 					res.Unwinds = append(res.Unwinds, pr.Msg)
 				}
 			case "infeasible":
@@ -294,3 +294,12 @@ func renderObserved(u uint64, s smt.Sort, goType string) string {
 }
 
 var _ = ssa.NewProgram
+
+func contains(xs []string, s string) bool {
+	for _, x := range xs {
+		if x == s {
+			return true
+		}
+	}
+	return false
+}
